@@ -108,6 +108,17 @@ def one_trace(tid, rng, thorough):
         ev.append(dict(a="fitted", estimators=[sorted(getattr(e, "rows_", [])) for e in model.estimators_], returns_self=ret is model))
         t["returns_self"] = ret is model
         t["untouched"] = bool(numpy.array_equal(Xfit, X))
+        if rng.random() < 0.5:
+            # the caller reuses the binner object it passed for a second estimator trained on other data: the first
+            # estimator keeps routing with the binner fitted on ITS training set (binner_ is its own)
+            X2, y2, _ = make_data(rng, rng.randint(max(4, ncls), 20), isclf, ncls)
+            X2[:, 1:] = X2[:, 1:] * 2 - 3
+            X2[:, 0] = X2[::-1, 0] * 3
+            other = (PiecewiseClassifier if isclf else PiecewiseRegressor)(binner=binner, estimator=stubs.RecClf2() if isclf else stubs.RecReg())
+            try:
+                other.fit(X2, y2)
+            except Exception:
+                pass
         pred = model.predict(P)
         single = [model.predict(P[q:q + 1])[0] for q in range(m)]
         classes = sorted(set(int(v) for v in y))
